@@ -7,10 +7,15 @@
    (C10_from_fen_total: the parser's output is always a well-formed builder, and construction is total by C09); the PGN
    importer after tokenisation never panics on ANY token list from any game whose position invariants hold
    (C10_pgn_import_total: move-text lookup, move application, history recording and status update are total).
-   PARTIAL: the three regex passes and textwrap inside Game::from_pgn are not modelled (external crates): that they
-   neither panic nor hang is checked on the library only (catch_unwind + slow-parse monitor on exported, mutated and
-   repetition-ending PGN texts, and every string up to a bounded length over the syntax alphabet). *)
-Require Import LC.model.Prims LC.model.Board LC.model.Text LC.model.Fen LC.model.Game LC.proofs.C10Proofs LC.proofs.C10Total.
+   Game::from_pgn as a whole (C10_pgn_text_total): the four regular-expression passes (tag pairs, blank-line split, move
+   tokens, result token) are modelled on the bytes of the text (model/Pgn.v: a leftmost-first backtracking matcher,
+   structurally recursive, so termination is by construction) and composed with the replay; for EVERY byte string the
+   import returns a game or an error.  What remains outside the model: the regex crate's own machinery (that it computes
+   the leftmost-first match this model defines, without panicking or hanging, is decided by the differential run on
+   exported, re-wrapped, mutated and hand-assembled PGN texts: outcome, error kind, imported moves, status, position and
+   Result tag are predicted by the model for every text), and the Unicode-aware classes of the tag pattern on non-ASCII
+   text (they touch only the tags, never moves, positions or status). *)
+Require Import LC.model.Prims LC.model.Board LC.model.Text LC.model.Fen LC.model.Game LC.model.Pgn LC.proofs.C10Proofs LC.proofs.C10Total LC.proofs.PgnImport.
 Open Scope N_scope.
 Theorem C10_file_total : forall s, parse_file s <> Panic. Proof. exact parse_file_total. Qed.
 Theorem C10_rank_total : forall s, parse_rank s <> Panic. Proof. exact parse_rank_total. Qed.
@@ -26,3 +31,5 @@ Theorem C10_fen_builder_wellformed : forall s bd, parse_fen s = Ok bd -> List.le
 Proof. exact parse_fen_wf. Qed.
 Theorem C10_pgn_import_total : forall K g0 toks res, GameGood K g0 -> from_pgn_tokens K g0 toks res <> Panic.
 Proof. exact from_pgn_tokens_total. Qed.
+Theorem C10_pgn_text_total : forall K t, from_pgn_text K t <> Panic.
+Proof. exact from_pgn_text_total. Qed.
